@@ -271,16 +271,35 @@ def check_definitions(case):
 
 
 def check_infos(case):
+    """Infos of the state as built, then of the same object after it was changed in place (its derived
+    quantities had been read before: they must follow the new values, not a cached conversion)."""
     from beyond.dates import Date
     from beyond.orbits import StateVector
 
     el = case["el"]
-    e = el["e"]
     mu = mu_of(el["body"])
-    cart = tb.kep2cart(el["a"], e, el["i"], el["raan"], el["argp"], el["nu"], mu)
-    ref = tb.cart2elements(cart, mu)
+    cart = tb.kep2cart(el["a"], el["e"], el["i"], el["raan"], el["argp"], el["nu"], mu)
     form = case.get("form", "cartesian")
     sv = StateVector(cart, Date(2020, 1, 1), "cartesian", frame_for(el["body"])).copy(form=form)
+    out = _infos_of(sv, cart, el, mu, form)
+    # in-place change through the public API: cartesian form, velocity scaled (stays elliptic / hyperbolic)
+    k = 0.97 if el["e"] < 1 else 1.05
+    sv.form = "cartesian"
+    sv[3:] = np.asarray(sv.base, float)[3:] * k
+    cart2 = np.array(sv.base, float)
+    el2 = tb.cart2elements(cart2, mu)
+    if (el["e"] < 1) == (el2["e"] < 1) and abs(1 - el2["e"]) > 1e-2 and el2["a"] * (1 - el2["e"]) > 0:
+        el2 = dict(el, a=el2["a"], e=el2["e"], i=el2["i"], raan=el2["raan"], argp=el2["argp"], nu=el2["nu"],
+                   anom=el2["M"] if el2["e"] < 1 else el2["E"])
+        out2 = _infos_of(sv, cart2, el2, mu, "cartesian")
+        out["ratio"] = max(out["ratio"], out2["ratio"])
+        out["cls"] = out["cls"] + ["re-read-after-change"]
+    return out
+
+
+def _infos_of(sv, cart, el, mu, form):
+    e = el["e"]
+    ref = tb.cart2elements(cart, mu)
     inf = sv.infos
     k = kappa(el)
     if form in ("spherical", "cylindrical"):
